@@ -601,6 +601,13 @@ pub struct Stats {
     pub seam_getpid: u64,
     pub seam_getenv: u64,
     pub seam_names: std::collections::BTreeSet<String>,
+    pub dim_host_named: u64,
+    pub dim_manifest_on_disk: u64,
+    pub dim_cargo_vars: u64,
+    pub dim_cpu_pinned: u64,
+    pub dim_hostname_uid: u64,
+    pub dim_cwd_subdir: u64,
+    pub long_processes: u64,
 }
 
 fn key_hash(k: &Key) -> u64 {
@@ -659,6 +666,13 @@ pub fn check_session(ctx: &Ctx, refs: &RefCache, s: &Session, st: &mut Stats, se
         if seg.env.fake_pid.is_some() {
             st.pid_faked += 1;
         }
+        st.dim_host_named += seg.env.host.is_some() as u64;
+        st.dim_manifest_on_disk += (!seg.env.files.is_empty()) as u64;
+        st.dim_cargo_vars += (seg.env.junk.len() > 2) as u64;
+        st.dim_cpu_pinned += seg.env.cpus.is_some() as u64;
+        st.dim_hostname_uid += (seg.env.hostname.is_some() || seg.env.uid.is_some()) as u64;
+        st.dim_cwd_subdir += seg.env.cwd.is_some() as u64;
+        st.long_processes += (seg.sched.requests.len() >= 1000) as u64;
         st.entropy_seeds.insert(seg.env.entropy_seed);
         let layout = fnv(
             format!(
@@ -1085,6 +1099,13 @@ pub fn run_batch(ctx: Arc<Ctx>, corpus: Arc<Corpus>, refs: Arc<RefCache>, seed: 
         total.seam_getpid += s.seam_getpid;
         total.seam_getenv += s.seam_getenv;
         total.seam_names.extend(s.seam_names);
+        total.dim_host_named += s.dim_host_named;
+        total.dim_manifest_on_disk += s.dim_manifest_on_disk;
+        total.dim_cargo_vars += s.dim_cargo_vars;
+        total.dim_cpu_pinned += s.dim_cpu_pinned;
+        total.dim_hostname_uid += s.dim_hostname_uid;
+        total.dim_cwd_subdir += s.dim_cwd_subdir;
+        total.long_processes += s.long_processes;
         total.entropy_seeds.extend(s.entropy_seeds);
         total.layouts.extend(s.layouts);
         for (k, v) in s.key_contexts {
